@@ -2,8 +2,10 @@
 """Generate /verif/MANIFEST.json from checks.json (+ not_applicable.json)."""
 import json, os
 V = os.path.dirname(os.path.dirname(os.path.abspath(__file__)))
-checks = json.load(open(os.path.join(V, "checks.json")))
-na = json.load(open(os.path.join(V, "not_applicable.json")))
+import glob
+checks = {os.path.basename(f)[:-5]: json.load(open(f)) for f in sorted(glob.glob(os.path.join(V, "checks.d", "*.json")))}
+checks = {k: v for k, v in checks.items() if v.get("claimed", True)}
+na = [e for e in json.load(open(os.path.join(V, "not_applicable.json"))) if e["property_id"] not in checks]
 m = {
  "version": 1,
  "setup_cmd": "./verif setup",
